@@ -9,6 +9,7 @@ import Grexv.Lemmas.HopcroftMinimal2
 import Grexv.Props.C13
 import Grexv.Lemmas.Stages
 import Grexv.Lemmas.EndToEnd
+import Grexv.Lemmas.RepPipeline
 
 /-!
 # C16 — every pipeline stage preserves the language; minimisation is minimal (stage theorems)
@@ -303,5 +304,49 @@ example :
 
 /-! non-vacuity: a concrete trie -/
 example : (Dfa.trie [[Grapheme.ofStr [97]], [Grapheme.ofStr [97], Grapheme.ofStr [98]]]).finals = [1, 2] := by decide
+
+/-! ## the stages with repetition conversion (`-r`) -/
+
+/-- **S4 is a notation change** the converted cluster, every grapheme repeated by its count, is the sequence of grapheme values it was
+made from; nested repetitions are converted forms of the unit they sit in; every grapheme carries one count -/
+theorem repetition_conversion_exact (cfg : Config) (ss : List Str) :
+    expandAll (convertRepetitions cfg (ss.map Grapheme.ofStr)) = ss ∧ ConsistentL (convertRepetitions cfg (ss.map Grapheme.ofStr)) ∧
+    ∀ g ∈ convertRepetitions cfg (ss.map Grapheme.ofStr), g.min = g.max :=
+  ⟨(convertRepetitions_exact cfg ss).1, (convertRepetitions_exact cfg ss).2,
+   convertRepetitions_counts cfg _ (by intro g hg; obtain ⟨s, _, rfl⟩ := List.mem_map.mp hg; rfl)⟩
+
+/-- **S5 with `-r`** the trie of clusters whose graphemes carry one count each is a tree (whatever the widening merge of
+`find_next_state` does to its labels), stands for every inserted cluster, and its alphabet has a symbol for every grapheme -/
+theorem trie_with_repetitions (cls : List Cluster) (hcls : ∀ cl ∈ cls, ∀ g ∈ cl, g.min = g.max) :
+    Dfa.TreeR (Dfa.trie cls) ∧ (∀ cl ∈ cls, (Dfa.trie cls).CAccepts cl) ∧
+      (∀ cl ∈ cls, ∀ g ∈ cl, ∃ l ∈ (Dfa.trie cls).alphabet, Dfa.SameKey l g) ∧ Dfa.RangeAlpha (Dfa.trie cls) := Dfa.trie_r cls hcls
+
+/-- **S6 with `-r` (the loop computes a stable partition)** for *every* tree-shaped automaton, whatever its labels and however many
+edges one state has for one symbol: when the work list is empty, two states of one class have, for every symbol of the alphabet and
+every class, either both or neither an edge that carries the symbol into that class.  Proved for the loop as repaired in 7496dbd
+(range containment in `get_parent_states`, both halves of a split block to the work list); with the smaller-half update the statement is
+false for such automata (`["xcpp","xcpq","yccq","ycpp","xccpq","yccpq","xcccppp","ycccppp"]`) -/
+theorem refinement_is_stable_with_repetitions (d : Dfa) (h : Dfa.TreeR d) :
+    ∃ p, Dfa.minimizePartition d = some p ∧ Dfa.StableR d p := Dfa.minimizePartition_stableR h
+
+/-- **S5 + S6 with `-r`** the minimised automaton stands for every non-empty cluster handed to the trie -/
+theorem minimize_keeps_clusters_with_repetitions (cls : List Cluster) (hcls : ∀ cl ∈ cls, ∀ g ∈ cl, g.min = g.max) :
+    ∃ m, Dfa.minimize (Dfa.trie cls) Dfa.pickMin = some m ∧ ∀ cl ∈ cls, cl ≠ [] → m.CAccepts cl :=
+  Dfa.minimize_trie_r cls hcls
+
+/-- **S6 with `-r` is exact on count sequences** the minimised automaton stands for a non-empty sequence of counted graphemes iff the
+trie does: the minimisation neither loses a test case (the defect repaired in 7496dbd) nor adds a count sequence of its own (what the
+pattern accepts beyond the test cases with `-r` — known finding D2 — is already in the trie: the widening merge) -/
+theorem minimize_exact_with_repetitions (cls : List Cluster) (hcls : ∀ cl ∈ cls, ∀ g ∈ cl, g.min = g.max) :
+    ∃ m, Dfa.minimize (Dfa.trie cls) Dfa.pickMin = some m ∧
+      ∀ cl : Cluster, (∀ g ∈ cl, g.min = g.max) → cl ≠ [] → (m.CAccepts cl ↔ (Dfa.trie cls).CAccepts cl) :=
+  Dfa.minimize_trie_r_exact cls hcls
+
+/-- the automaton on which the unrepaired refinement merged two states that differ: states 1 (after `x`) and 3 (after `y`) are in
+different classes now -/
+example :
+    (Dfa.minimizePartition (Dfa.trie [[.mk [[120]] [] 1 1, .mk [[99]] [] 1 1], [.mk [[121]] [] 1 1, .mk [[99]] [] 1 1],
+      [.mk [[121]] [] 1 1, .mk [[99]] [] 2 2], [.mk [[120]] [] 1 1, .mk [[99]] [] 3 3], [.mk [[121]] [] 1 1, .mk [[99]] [] 3 3]])).map
+      (fun p => (Dfa.classOf p 1 == Dfa.classOf p 3)) = some false := by decide +kernel
 
 end Grexv.Props.C16
